@@ -41,7 +41,9 @@ def junit_failures(path):
 
 def demo_result(wt, demo):
     r = run(f"{PY} {demo}", wt, timeout=900)
-    failed = r.returncode != 0 or "FAIL" in (r.stdout + r.stderr).upper().replace("FAILED TO", "")
+    lines = [l.strip() for l in (r.stdout + r.stderr).splitlines() if l.strip()]
+    verdict_fail = any(l == "FAIL" or l.startswith("FAIL:") or l.startswith("FAIL ") for l in lines)
+    failed = r.returncode != 0 or verdict_fail
     return failed, (r.stdout + r.stderr)[-400:]
 
 
